@@ -806,4 +806,313 @@ theorem sim_mod126 {σ : RSt} {π : PSt} (cfg : Cfg) (N : Nat) (hsim : ∀ m, N 
       have : (ar == 1) = false := by simpa using h1
       exact ⟨π, by simp [this, b2i, pyTruth, execPL, sigP], by simpa [Post] using h⟩
 
+/-! ### `₌` and `₍`: two operands on the same stack -/
+
+/-- a call neither reads nor changes the caller's stack -/
+theorem callLam_stack (cfg : Cfg) (n id : Nat) (args : List Val) (ar : Option Int) (σ σ'' : RSt) (s' : List Val) (res : Val)
+    (rest : List Val) (h : callLam cfg n id args ar σ = .ok (res, rest, σ'')) :
+    callLam cfg n id args ar { σ with stack := s' } = .ok (res, rest, { σ'' with stack := s' }) ∧ σ''.stack = σ.stack := by
+  cases n with
+  | zero => simp [callLam] at h
+  | succ m =>
+    unfold callLam at h ⊢
+    cases hf : σ.fns[id]? with
+    | none => simp [hf] at h
+    | some f =>
+      simp only [hf] at h ⊢
+      by_cases hl : f.live = true
+      · simp only [hl, Bool.not_true, Bool.false_eq_true, ↓reduceIte] at h ⊢
+        cases hk : toNatArity (lamArity f ar) with
+        | error e => simp [hk] at h
+        | ok k =>
+          simp only [hk, R_ok_bind] at h ⊢
+          have he : enterLam { σ with stack := s' } f id (popN k args σ.inputs).1 (popN k args σ.inputs).2.2 =
+              enterLam σ f id (popN k args σ.inputs).1 (popN k args σ.inputs).2.2 := rfl
+          rw [he]
+          cases hb : execL cfg m f.body (enterLam σ f id (popN k args σ.inputs).1 (popN k args σ.inputs).2.2) with
+          | error e => simp [hb] at h
+          | ok r2 =>
+            obtain ⟨sg, σ2⟩ := r2
+            simp only [hb, R_ok_bind] at h ⊢
+            cases hlr : lamResult sg σ2 with
+            | error e => simp [hlr] at h
+            | ok r3 =>
+              obtain ⟨res3, σ3⟩ := r3
+              simp only [hlr, R_ok_bind] at h ⊢
+              cases hll : σ3.leaveLam with
+              | error e => simp [hll] at h
+              | ok σ4 =>
+                simp [hll] at h ⊢
+                obtain ⟨h1, h2, h3⟩ := h
+                subst h1; subst h2; subst h3
+                exact ⟨⟨rfl, rfl, rfl⟩, rfl⟩
+      · simp [hl] at h
+
+theorem applyFn_stack (cfg : Cfg) (n : Nat) (f : Val) (args : List Val) (σ σ'' : RSt) (s' : List Val) (r : Val)
+    (h : applyFn cfg n f args σ = .ok (r, σ'')) :
+    applyFn cfg n f args { σ with stack := s' } = .ok (r, { σ'' with stack := s' }) ∧ σ''.stack = σ.stack := by
+  unfold applyFn at h ⊢
+  cases f with
+  | fn id =>
+    simp only at h ⊢
+    cases hc : callLam cfg n id args (some (args.length : Int)) σ with
+    | error e => simp [hc] at h
+    | ok r3 =>
+      obtain ⟨res, rest, σ3⟩ := r3
+      simp [hc] at h; obtain ⟨h1, h2⟩ := h; subst h1; subst h2
+      obtain ⟨hc', hst⟩ := callLam_stack cfg n id args _ σ σ3 s' res rest hc
+      exact ⟨by simp [hc'], hst⟩
+  | int i => simp at h
+  | list l => simp at h
+  | none => simp at h
+
+@[simp] theorem specialOf_list' : specialOf "list" = some .list_ := by decide
+
+/-- the common start of `₌` and `₍`: the copy, both argument lists -/
+theorem exec_dy_args {σ : RSt} {π : PSt} (cfg : Cfg) (n : Nat) (h : Rel env A σ π) (idA idB kA kB : Nat)
+    (hfa : FnVar π "function_A" idA kA) (hfb : FnVar π "function_B" idB kB) :
+    ∃ π', execPL cfg n
+        [ .assign [.name "stack_copy"] (.call (.name "list") [.call (.name "deep_copy") [.name "stack"] []] []),
+          .assign [.name "arguments_A"] (.call (.name "wrapify") [.name "stack_copy", .attr (.name "function_A") "arity"] [("ctx", .name "ctx")]),
+          .assign [.name "arguments_B"] (.call (.name "wrapify") [.name "stack", .attr (.name "function_B") "arity"] [("ctx", .name "ctx")]) ] π =
+        .ok (.normal, π') ∧
+      Rel env A (({ σ with inputs := (popN kA σ.stack σ.inputs).2.2 } : RSt).popK kB).2 π' ∧
+      π'.getVar ("arguments_A", []) = some (.list (popN kA σ.stack σ.inputs).1) ∧
+      π'.getVar ("arguments_B", []) = some (.list (({ σ with inputs := (popN kA σ.stack σ.inputs).2.2 } : RSt).popK kB).1) ∧
+      π'.getVar ("function_A", []) = some (.fn idA) ∧ π'.getVar ("function_B", []) = some (.fn idB) := by
+  -- stack_copy = list(deep_copy(stack))
+  let π1 := π.setVar ("stack_copy", []) (.list σ.stack.reverse)
+  have hR1 : Rel env A σ π1 := h.setJunk "stack_copy" _ (by decide)
+  have s1 : execPS cfg n (.assign [.name "stack_copy"] (.call (.name "list") [.call (.name "deep_copy") [.name "stack"] []] [])) π =
+      .ok (.normal, π1) := by
+    simp [execPS, evalE, evalSpecial, h.stack, assignTo, π1]
+  have hfa1 : FnVar π1 "function_A" idA kA := hfa.mono (getVar_setVar_ne _ _ _ _ (by decide)) (by simp [π1])
+  have hfb1 : FnVar π1 "function_B" idB kB := hfb.mono (getVar_setVar_ne _ _ _ _ (by decide)) (by simp [π1])
+  -- arguments_A = wrapify(stack_copy, function_A.arity, ctx=ctx)
+  have hw := eval_wrapify_var cfg n π1 π1 "stack_copy" σ.stack (.attr (.name "function_A") "arity") kA (eval_fn_arity cfg n hfa1)
+    (getVar_setVar_eq _ _ _) hR1.retain [] [("ctx", .name "ctx")]
+  rw [hR1.inputs] at hw
+  let π2 := ((({ π1 with inputs := (popN kA σ.stack σ.inputs).2.2 } : PSt).setVar ("stack_copy", [])
+    (.list (popN kA σ.stack σ.inputs).2.1.reverse)).setVar ("arguments_A", []) (.list (popN kA σ.stack σ.inputs).1))
+  have hR2 : Rel env A { σ with inputs := (popN kA σ.stack σ.inputs).2.2 } π2 :=
+    ((hR1.setInputs _).setJunk "stack_copy" _ (by decide)).setJunk "arguments_A" _ (by decide)
+  have s2 : execPS cfg n (.assign [.name "arguments_A"] (.call (.name "wrapify") [.name "stack_copy", .attr (.name "function_A") "arity"] [("ctx", .name "ctx")])) π1 =
+      .ok (.normal, π2) := by
+    simp only [execPS, hw, R_ok_bind, assignTo, π2]
+  have hg2 : ∀ key, key ≠ ("stack_copy", []) → key ≠ ("arguments_A", []) → π2.getVar key = π1.getVar key := by
+    intro key h1 h2
+    simp only [π2]
+    rw [getVar_setVar_ne _ _ _ _ h2, getVar_setVar_ne _ _ _ _ h1]; rfl
+  have hfb2 : FnVar π2 "function_B" idB kB := hfb1.mono (hg2 _ (by decide) (by decide)) (by simp [π2])
+  -- arguments_B = wrapify(stack, function_B.arity, ctx=ctx)
+  obtain ⟨s3, hR3⟩ := exec_wrapify_stack cfg n hR2 "arguments_B" (by decide) (by decide) _ kB (eval_fn_arity cfg n hfb2) [] [("ctx", .name "ctx")]
+  refine ⟨_, ?_, hR3, ?_, getVar_setVar_eq _ _ _, ?_, ?_⟩
+  · simp only [execPL_cons, s1, s2, s3, execPL]
+  · rw [getVar_after_wrapify kB "arguments_B" "arguments_A" _ (by decide) (by decide)]
+    exact getVar_setVar_eq _ _ _
+  · rw [getVar_after_wrapify kB "arguments_B" "function_A" _ (by decide) (by decide), hg2 _ (by decide) (by decide)]
+    exact hfa1.var
+  · rw [getVar_after_wrapify kB "arguments_B" "function_B" _ (by decide) (by decide)]
+    exact hfb2.var
+
+/-- `₌` (parallel apply) and `₍` (parallel apply, wrapped) -/
+theorem sim_dy {σ : RSt} {π : PSt} (cfg : Cfg) (N : Nat) (hsim : ∀ m, N = m + 1 → SimAt cfg env m) (h : Rel env A σ π)
+    (m : Nat) (hm : m = 8332 ∨ m = 8333) (idA idB : Nat) (arA arB : Int)
+    (hfa : FnVar π "function_A" idA arA) (hfb : FnVar π "function_B" idB arB) (sg : Sig) (σ' : RSt)
+    (hr : execDy cfg N m idA arA idB arB σ = .ok (sg, σ')) :
+    ∃ π', execPL cfg N (if m = 8332 then tmplM8332 else tmplM8333) π = .ok (sigP sg, π') ∧ Post env A sg σ' π' := by
+  unfold execDy at hr
+  simp only [hm, ↓reduceIte] at hr
+  cases hkA : toNatArity arA with
+  | error e => simp [hkA] at hr
+  | ok kA =>
+    cases hkB : toNatArity arB with
+    | error e => simp [hkA, hkB] at hr
+    | ok kB =>
+      simp only [hkA, hkB, R_ok_bind] at hr
+      have hA := toNatArity_ok hkA; subst hA
+      have hB := toNatArity_ok hkB; subst hB
+      obtain ⟨π3, s123, hR3, hvaA, hvaB, hvfA, hvfB⟩ := exec_dy_args cfg N h idA idB kA kB hfa hfb
+      generalize hσ1 : (({ σ with inputs := (popN kA σ.stack σ.inputs).2.2 } : RSt).popK kB) = pk at hr hR3 hvaB
+      obtain ⟨argsB, σ1⟩ := pk
+      simp only at hr hR3 hvaB
+      cases ha : applyFn cfg N (.fn idA) (popN kA σ.stack σ.inputs).1.reverse σ1 with
+      | error e => simp [ha] at hr
+      | ok r2 =>
+        obtain ⟨rA, σ2⟩ := r2
+        simp only [ha, R_ok_bind] at hr
+        cases hb : applyFn cfg N (.fn idB) argsB.reverse σ2 with
+        | error e => simp [hb] at hr
+        | ok r3 =>
+          obtain ⟨rB, σ3⟩ := r3
+          simp only [hb, R_ok_bind] at hr
+          obtain ⟨π4, hevA, hR4, hsame4⟩ := eval_safe_apply cfg N hsim hR3 "function_A" idA hvfA "arguments_A" _ hvaA rA σ2 ha
+          have hsplit5 : ∀ (a b c d e : PyStmt), [a, b, c, d, e] = [a, b, c] ++ [d, e] := fun _ _ _ _ _ => rfl
+          have hsplit6 : ∀ (a b c d e f : PyStmt), [a, b, c, d, e, f] = [a, b, c] ++ [d, e, f] := fun _ _ _ _ _ _ => rfl
+          by_cases h32 : m = 8332
+          · subst h32
+            simp only [↓reduceIte] at hr ⊢
+            simp at hr; obtain ⟨h1, h2⟩ := hr; subst h1; subst h2
+            -- stack.append(safe_apply(function_A, …))
+            obtain ⟨s4, hR5⟩ := exec_push cfg N _ _ hevA hR4
+            simp only [push, stackE] at s4
+            -- stack.append(safe_apply(function_B, …)): the second operand runs with the first result already pushed
+            obtain ⟨hb', hst⟩ := applyFn_stack cfg N (.fn idB) argsB.reverse σ2 σ3 (rA :: σ2.stack) rB hb
+            have hvfB5 : (π4.setVar ("stack", []) (.list (rA :: σ2.stack).reverse)).getVar ("function_B", []) = some (.fn idB) := by
+              rw [getVar_setVar_ne _ _ _ _ (by decide), hsame4.getVar]; exact hvfB
+            have hvaB5 : (π4.setVar ("stack", []) (.list (rA :: σ2.stack).reverse)).getVar ("arguments_B", []) = some (.list argsB) := by
+              rw [getVar_setVar_ne _ _ _ _ (by decide), hsame4.getVar]; exact hvaB
+            obtain ⟨π6, hevB, hR6, _⟩ := eval_safe_apply cfg N hsim hR5 "function_B" idB hvfB5 "arguments_B" _ hvaB5 rB _ hb'
+            obtain ⟨s5, hR7⟩ := exec_push cfg N _ _ hevB hR6
+            simp only [push, stackE] at s5
+            have hthis : ((σ3.push rA).push rB) = ({ σ3 with stack := rA :: σ2.stack } : RSt).push rB := by
+              simp [RSt.push, hst]
+            rw [← hthis] at hR7
+            refine ⟨_, ?_, hR7⟩
+            simp only [tmplM8332]
+            rw [hsplit5, execPL_append, s123]
+            simp only [execPL_cons, s4, s5, execPL, sigP]
+          · have h33 : m = 8333 := by rcases hm with hm | hm; exact absurd hm h32; exact hm
+            subst h33
+            simp only [show (8333 : Nat) ≠ 8332 by decide, ↓reduceIte] at hr ⊢
+            simp at hr; obtain ⟨h1, h2⟩ := hr; subst h1; subst h2
+            -- res_A = safe_apply(function_A, …)
+            have hR5 := hR4.setJunk "res_A" rA (by decide)
+            have s4 := exec_assign_name cfg N "res_A" _ _ π3 _ hevA
+            have hvfB5 : (π4.setVar ("res_A", []) rA).getVar ("function_B", []) = some (.fn idB) := by
+              rw [getVar_setVar_ne _ _ _ _ (by decide), hsame4.getVar]; exact hvfB
+            have hvaB5 : (π4.setVar ("res_A", []) rA).getVar ("arguments_B", []) = some (.list argsB) := by
+              rw [getVar_setVar_ne _ _ _ _ (by decide), hsame4.getVar]; exact hvaB
+            -- res_B = safe_apply(function_B, …)
+            obtain ⟨π6, hevB, hR6, hsame6⟩ := eval_safe_apply cfg N hsim hR5 "function_B" idB hvfB5 "arguments_B" _ hvaB5 rB σ3 hb
+            have hR7 := hR6.setJunk "res_B" rB (by decide)
+            have s5 := exec_assign_name cfg N "res_B" _ _ _ _ hevB
+            -- stack.append([res_A, res_B])
+            have hvA7 : (π6.setVar ("res_B", []) rB).getVar ("res_A", []) = some rA := by
+              rw [getVar_setVar_ne _ _ _ _ (by decide), hsame6.getVar]; exact getVar_setVar_eq _ _ _
+            have hvB7 : (π6.setVar ("res_B", []) rB).getVar ("res_B", []) = some rB := getVar_setVar_eq _ _ _
+            have hlist : evalE cfg N (.list [.name "res_A", .name "res_B"]) (π6.setVar ("res_B", []) rB) =
+                .ok (.list [rA, rB], π6.setVar ("res_B", []) rB) := by
+              simp [evalE, evalArgs, isCtxName, hvA7, hvB7]
+            obtain ⟨s6, hR8⟩ := exec_push cfg N _ _ hlist hR7
+            simp only [push, stackE] at s6
+            refine ⟨_, ?_, by simpa [Post] using hR8⟩
+            simp only [tmplM8333]
+            rw [hsplit6, execPL_append, s123]
+            simp only [execPL_cons, s4, s5, s6, execPL, sigP, List.reverse_cons]
+
+/-! ### from the modifier table to the lemmas -/
+
+theorem keyCh_eq {m : Str} {c : Nat} (h : keyCh m = c) (hc : c ≠ 0) : m = [c] := by
+  unfold keyCh at h
+  split at h
+  · rw [h]
+  · exact absurd h.symm hc
+
+theorem isModTmpl_cases {c : Nat} {b : List PyStmt} (h : isModTmpl c b = true) :
+    (c = 38 ∧ b = tmplM38) ∨ (c = 118 ∧ b = tmplM118) ∨ (c = 126 ∧ b = tmplM126) ∨ (c = 8332 ∧ b = tmplM8332) ∨
+    (c = 8333 ∧ b = tmplM8333) ∨ (c = 402 ∧ b = tmplM402) ∨ (c = 598 ∧ b = tmplM598) ∨ (c = 223 ∧ b = tmplM223) := by
+  unfold isModTmpl at h
+  by_cases h1 : c = 38
+  · simp only [h1, ↓reduceIte] at h; exact Or.inl ⟨h1, isTmplM38_sound b h⟩
+  by_cases h2 : c = 118
+  · simp only [h2, ↓reduceIte] at h; exact Or.inr (Or.inl ⟨h2, isTmplM118_sound b (by simpa using h)⟩)
+  by_cases h3 : c = 126
+  · simp only [h3, ↓reduceIte] at h; exact Or.inr (Or.inr (Or.inl ⟨h3, isTmplM126_sound b (by simpa using h)⟩))
+  by_cases h4 : c = 8332
+  · simp only [h4, ↓reduceIte] at h; exact Or.inr (Or.inr (Or.inr (Or.inl ⟨h4, isTmplM8332_sound b (by simpa using h)⟩)))
+  by_cases h5 : c = 8333
+  · simp only [h5, ↓reduceIte] at h; exact Or.inr (Or.inr (Or.inr (Or.inr (Or.inl ⟨h5, isTmplM8333_sound b (by simpa using h)⟩))))
+  by_cases h6 : c = 402
+  · simp only [h6, ↓reduceIte] at h; exact Or.inr (Or.inr (Or.inr (Or.inr (Or.inr (Or.inl ⟨h6, isTmplM402_sound b (by simpa using h)⟩)))))
+  by_cases h7 : c = 598
+  · simp only [h7, ↓reduceIte] at h; exact Or.inr (Or.inr (Or.inr (Or.inr (Or.inr (Or.inr (Or.inl ⟨h7, isTmplM598_sound b (by simpa using h)⟩))))))
+  by_cases h8 : c = 223
+  · simp only [h8, ↓reduceIte] at h; exact Or.inr (Or.inr (Or.inr (Or.inr (Or.inr (Or.inr (Or.inr ⟨h8, isTmplM223_sound b (by simpa using h)⟩))))))
+  simp [h1, h2, h3, h4, h5, h6, h7, h8] at h
+
+/-- what `modTemplate` returns, given a table as expected: the template of one of the eight modifiers, or `pass` for a
+    character that is none of them -/
+theorem modTemplate_spec (hM : ModsOK env.modifiers) (m : Str) (tmpl : List PyStmt) (ht : modTemplate env m = .ok tmpl) :
+    (tmpl = [.pass] ∧ ∀ c ∈ modKeys, keyCh m ≠ c) ∨ (∃ c, m = [c] ∧ isModTmpl c tmpl = true) := by
+  unfold modTemplate at ht
+  cases hlk : lookupEntry env.modifiers m with
+  | none =>
+    simp [hlk] at ht
+    left
+    refine ⟨ht.symm, ?_⟩
+    intro c hc hk
+    have hc0 : c ≠ 0 := by intro h0; subst h0; revert hc; decide
+    have hm := keyCh_eq hk hc0
+    have := modsOK_present env.modifiers hM c hc
+    rw [← hm, hlk] at this; simp at this
+  | some e =>
+    right
+    obtain ⟨hok, hkey⟩ := modsOK_lookup env.modifiers hM m e hlk
+    simp only [hlk] at ht
+    unfold modEntryOK at hok
+    split at hok
+    · rename_i c b hk hb
+      rw [hb] at ht; simp at ht; subst ht
+      exact ⟨c, by rw [← hkey, hk], hok⟩
+    · simp at hok
+
+/-- a monadic modifier's template against `execMon` -/
+theorem sim_monTemplate {σ : RSt} {π : PSt} (cfg : Cfg) (N : Nat) (hsim : ∀ m, N = m + 1 → SimAt cfg env m) (hM : ModsOK env.modifiers)
+    (h : Rel env A σ π) (m : Str) (tmpl : List PyStmt) (ht : modTemplate env m = .ok tmpl) (id : Nat) (rf : RFn)
+    (hid : σ.fns[id]? = some rf) (hl : rf.live = true) (hv : π.getVar ("function_A", []) = some (.fn id)) (sg : Sig) (σ' : RSt)
+    (hr : execMon cfg N (keyCh m) id rf.arity σ = .ok (sg, σ')) :
+    ∃ π', execPL cfg N tmpl π = .ok (sigP sg, π') ∧ Post env A sg σ' π' := by
+  have hfa := FnVar.of_rel h "function_A" id rf hv hid hl
+  rcases modTemplate_spec hM m tmpl ht with ⟨htm, hne⟩ | ⟨c, hmc, hok⟩
+  · subst htm
+    unfold execMon at hr
+    have n1 := hne 118 (by decide); have n2 := hne 38 (by decide); have n3 := hne 126 (by decide); have n4 := hne 223 (by decide)
+    have n5 := hne 402 (by decide); have n6 := hne 598 (by decide); have n7 := hne 8332 (by decide); have n8 := hne 8333 (by decide)
+    simp only [n1, n2, n3, n4, n5, n6, n7, n8, ↓reduceIte, or_self] at hr
+    simp at hr; obtain ⟨h1, h2⟩ := hr; subst h1; subst h2
+    exact ⟨π, by simp [execPL, execPS, sigP], by simpa [Post] using h⟩
+  · subst hmc
+    simp only [keyCh] at hr
+    rcases isModTmpl_cases hok with ⟨hc, hb⟩ | ⟨hc, hb⟩ | ⟨hc, hb⟩ | ⟨hc, hb⟩ | ⟨hc, hb⟩ | ⟨hc, hb⟩ | ⟨hc, hb⟩ | ⟨hc, hb⟩ <;> subst hc <;> subst hb
+    · exact sim_mod38 cfg N hsim h id rf.arity hfa sg σ' hr
+    · exact sim_mod118 cfg N hsim h id rf.arity hfa sg σ' hr
+    · exact sim_mod126 cfg N hsim h id rf.arity hfa sg σ' hr
+    · unfold execMon at hr; simp at hr
+    · unfold execMon at hr; simp at hr
+    · exact sim_mod402 cfg N hsim h id rf hid hl hv rf.arity sg σ' hr
+    · exact sim_mod598 cfg N hsim h id rf hid hl hv rf.arity sg σ' hr
+    · exact sim_mod223 cfg N hsim h id hv rf.arity sg σ' hr
+
+/-- a dyadic modifier's template against `execDy` -/
+theorem sim_dyTemplate {σ : RSt} {π : PSt} (cfg : Cfg) (N : Nat) (hsim : ∀ m, N = m + 1 → SimAt cfg env m) (hM : ModsOK env.modifiers)
+    (h : Rel env A σ π) (m : Str) (tmpl : List PyStmt) (ht : modTemplate env m = .ok tmpl) (idA idB : Nat) (rfA rfB : RFn)
+    (hidA : σ.fns[idA]? = some rfA) (hlA : rfA.live = true) (hvA : π.getVar ("function_A", []) = some (.fn idA))
+    (hidB : σ.fns[idB]? = some rfB) (hlB : rfB.live = true) (hvB : π.getVar ("function_B", []) = some (.fn idB)) (sg : Sig) (σ' : RSt)
+    (hr : execDy cfg N (keyCh m) idA rfA.arity idB rfB.arity σ = .ok (sg, σ')) :
+    ∃ π', execPL cfg N tmpl π = .ok (sigP sg, π') ∧ Post env A sg σ' π' := by
+  have hfa := FnVar.of_rel h "function_A" idA rfA hvA hidA hlA
+  have hfb := FnVar.of_rel h "function_B" idB rfB hvB hidB hlB
+  rcases modTemplate_spec hM m tmpl ht with ⟨htm, hne⟩ | ⟨c, hmc, hok⟩
+  · subst htm
+    unfold execDy at hr
+    have n1 := hne 118 (by decide); have n2 := hne 38 (by decide); have n3 := hne 126 (by decide); have n4 := hne 223 (by decide)
+    have n5 := hne 402 (by decide); have n6 := hne 598 (by decide); have n7 := hne 8332 (by decide); have n8 := hne 8333 (by decide)
+    simp only [n1, n2, n3, n4, n5, n6, n7, n8, ↓reduceIte, or_self] at hr
+    simp at hr; obtain ⟨h1, h2⟩ := hr; subst h1; subst h2
+    exact ⟨π, by simp [execPL, execPS, sigP], by simpa [Post] using h⟩
+  · subst hmc
+    simp only [keyCh] at hr
+    rcases isModTmpl_cases hok with ⟨hc, hb⟩ | ⟨hc, hb⟩ | ⟨hc, hb⟩ | ⟨hc, hb⟩ | ⟨hc, hb⟩ | ⟨hc, hb⟩ | ⟨hc, hb⟩ | ⟨hc, hb⟩ <;> subst hc <;> subst hb
+    · unfold execDy at hr; simp at hr
+    · unfold execDy at hr; simp at hr
+    · unfold execDy at hr; simp at hr
+    · have := sim_dy cfg N hsim h 8332 (Or.inl rfl) idA idB rfA.arity rfB.arity hfa hfb sg σ' hr
+      simpa using this
+    · have := sim_dy cfg N hsim h 8333 (Or.inr rfl) idA idB rfA.arity rfB.arity hfa hfb sg σ' hr
+      simpa using this
+    · unfold execDy at hr; simp at hr
+    · unfold execDy at hr; simp at hr
+    · unfold execDy at hr; simp at hr
+
 end Vy.Sem
